@@ -115,10 +115,11 @@ class Traj:
         self.f = (lat, lon, alt, roll, pitch, heading)
         self.name = name
         self.meta = meta
+        self.origin = 0.0      # time stamp of the start of the motion (the time axis need not start at 0)
 
     def state(self, t):
         """(lla, v_n, rph, w_ib^b, f^b) at time t from the navigation equations."""
-        T = jt(t)
+        T = jt(t - self.origin)
         lat, lon, alt, roll, pitch, head = [g(T) for g in self.f]
         phi = lat * D2R
         s, c = phi.sin(), phi.cos()
@@ -252,6 +253,9 @@ def synthesise(time, tr, form, sensor_type):
     return sim.generate_imu(time, tr['lla'][0], tr['rph'], tr['vel'], sensor_type)
 
 
+ORIGINS = (0.0, 40.0, -17.3, 1e5)      # time stamps of the first sample used across the cases
+NOISE = lambda origin: 1.0 + abs(origin) / 1e4   # rounding noise grows with |time stamp| (lon + RATE*t, time differences)
+VEL_TOL = 1.0   # [m/s] returned velocity of the position-only form vs the analytic one (clean: <= 7e-3 at 100 ms)
 TRIM = 3        # samples dropped at both ends for the absolute bounds
 EDGE = 1.0      # [s] margin at both ends excluded from the convergence (halving) tests
 
@@ -365,7 +369,9 @@ def traj_case(seed, k, family, dts, want_closed_loop=True):
     summ = {}
     imus = {}
     grids = {}
-    g = make_grid(_case_rng(seed, 500000 + k), dts[0], TOTAL, uniform)
+    origin = ORIGINS[k % 4]
+    traj.origin = origin
+    g = origin + make_grid(_case_rng(seed, 500000 + k), dts[0], TOTAL, uniform)
     for dt in dts:
         grids[dt] = g
         g = refine(g)
@@ -378,7 +384,7 @@ def traj_case(seed, k, family, dts, want_closed_loop=True):
                 e, (trj, imu, tr) = imu_errors(traj, grids[dt], form, st, tr=truths[dt])
                 imus[(form, st, dt)] = imu
                 summ[f"{form}/{st}/{dt}"] = e
-                fl = dict(gyro=GYRO_FLOOR, accel=ACC_FLOOR(hmin[dt]))
+                fl = dict(gyro=GYRO_FLOOR * NOISE(origin), accel=ACC_FLOOR(hmin[dt]) * NOISE(origin))
                 for ch in ('gyro', 'accel'):
                     if not np.isfinite(e[ch]):
                         fails.append(f"{form}/{st} dt={dt}: {ch} reading not finite")
@@ -387,6 +393,9 @@ def traj_case(seed, k, family, dts, want_closed_loop=True):
                                      f"{prev[ch]:.3e} -> {e[ch]:.3e} at dt={dt}")
                     if dt <= 0.05 and e[ch + '_all'] > ABS[ch] + fl[ch]:
                         fails.append(f"{form}/{st} dt={dt}: {ch} error {e[ch + '_all']:.3e} above bound {ABS[ch]}")
+                if e['vel'] > (VEL_TOL if form == 'pos' else 1e-9):
+                    fails.append(f"{form}/{st} dt={dt}: returned velocity is {e['vel']:.3e} m/s off the velocity of the motion "
+                                 f"(time axis starts at {origin})")
                 if form == 'init+vel' and e['pos'] > POS_TOL:
                     fails.append(f"init+vel/{st} dt={dt}: returned position is {e['pos']:.3e} m off the motion "
                                  f"that has the given velocity")
@@ -405,7 +414,7 @@ def traj_case(seed, k, family, dts, want_closed_loop=True):
                 sc = 1.0 if st == 'rate' else steps_of(tg)[win, None]
                 d = dict(gyro=float(np.abs((a[win, :3] - b[win, :3]) / sc).max()),
                          accel=float(np.abs((a[win, 3:] - b[win, 3:]) / sc).max()))
-                fl = dict(gyro=GYRO_FLOOR, accel=2 * ACC_FLOOR(hmin[dt]))
+                fl = dict(gyro=GYRO_FLOOR * NOISE(origin), accel=2 * ACC_FLOOR(hmin[dt]) * NOISE(origin))
                 for ch in ('gyro', 'accel'):
                     if prev is not None and d[ch] > max(FALL * prev[ch], fl[ch]):
                         fails.append(f"forms pos+vel and {other} ({st}): {ch} difference does not fall: "
@@ -428,7 +437,7 @@ def traj_case(seed, k, family, dts, want_closed_loop=True):
                         if dt <= 0.05 and cl[ch] > CL_ABS[ch]:
                             fails.append(f"closed loop {form}/{st} dt={dt}: {ch} error {cl[ch]:.3e} above {CL_ABS[ch]}")
                     prev = cl
-    meta = dict(traj.meta, grid='uniform' if uniform else 'non-uniform',
+    meta = dict(traj.meta, t_first=origin, grid='uniform' if uniform else 'non-uniform',
                 steps_ms=[round(1e3 * float(np.diff(grids[dts[0]]).min()), 1), round(1e3 * float(np.diff(grids[dts[0]]).max()), 1)])
     return fails, dict(meta=meta, errors=summ)
 
@@ -446,10 +455,18 @@ def leg_case(seed, k, dt=0.1, total=LEG_TOTAL):
     # even k: north / south legs, odd k: diagonal legs
     base = [0.0, math.pi / 4, math.pi, 5 * math.pi / 4][k % 4]
     traj = make_traj(_case_rng(seed, 300000 + k), 'leg', leg_az=base)
-    time = np.arange(int(round(total / dt)) + 1) * dt
+    origin = (40.0, 0.0, 1e5, -17.3)[k % 4]
+    traj.origin = origin
+    time = origin + np.arange(int(round(total / dt)) + 1) * dt
     tr = truth(traj, time, integrals=False)
     fails = []
     summ = {}
+    trj_c, _ = synthesise(time, tr, 'pos', 'rate')
+    dvc = float(np.abs(trj_c[['VN', 'VE', 'VD']].values - tr['vel']).max())
+    summ['pos_form_velocity'] = dvc
+    if dvc > VEL_TOL:
+        fails.append(f"pos/rate: returned velocity is {dvc:.3e} m/s off the velocity of the motion on the long leg "
+                     f"(time axis starts at {origin})")
     for st in ('rate', 'increment'):
         trj_a, imu_a = synthesise(time, tr, 'pos+vel', st)
         trj_b, imu_b = synthesise(time, tr, 'init+vel', st)
@@ -461,19 +478,23 @@ def leg_case(seed, k, dt=0.1, total=LEG_TOTAL):
         dacc = float(np.abs(imu_a.values[3:-3, 3:] - imu_b.values[3:-3, 3:]).max()) / sc
         dgyr = float(np.abs(imu_a.values[3:-3, :3] - imu_b.values[3:-3, :3]).max()) / sc
         summ[st] = dict(north=dn, east=de, down=dd, accel_forms=dacc, gyro_forms=dgyr)
+        for nm, tj in (('pos+vel', trj_a), ('init+vel', trj_b)):
+            dv = float(np.abs(tj[['VN', 'VE', 'VD']].values - tr['vel']).max())
+            if dv > 1e-9:
+                fails.append(f"{nm}/{st}: returned velocity differs from the given one by {dv:.3e} m/s")
         if max(dn, de, dd) > LEG_POS_TOL:
             fails.append(f"init+vel/{st}: after {total:.0f} s the returned position is off the motion with the given "
                          f"velocity by north {dn:.3e} east {de:.3e} down {dd:.3e} m")
-        if dacc > LEG_ACC(dt):
+        if dacc > LEG_ACC(dt) * NOISE(origin):
             fails.append(f"forms pos+vel and init+vel ({st}) disagree on the long leg: accel {dacc:.3e} m/s^2 at dt={dt}")
         if dgyr > 1e-9:
             fails.append(f"forms pos+vel and init+vel ({st}) disagree on the long leg: gyro {dgyr:.3e} rad/s")
         if st == 'rate':
             ea = float(np.abs(imu_b.values[3:-3, 3:] - tr['f'][3:-3]).max())
             summ[st]['accel_truth'] = ea
-            if ea > LEG_ACC(dt):
+            if ea > LEG_ACC(dt) * NOISE(origin):
                 fails.append(f"init+vel/rate: accel differs from the closed-form specific force by {ea:.3e} m/s^2 on the long leg")
-    return fails, dict(meta=traj.meta, dt=dt, errors=summ)
+    return fails, dict(meta=dict(traj.meta, t_first=origin), dt=dt, errors=summ)
 
 
 def rest_case(seed, k, dt=0.1, n=12):
@@ -487,6 +508,8 @@ def rest_case(seed, k, dt=0.1, n=12):
         time = np.arange(n) * dt
     else:                                           # non-uniform: steps 30 .. 100 ms
         time = np.concatenate([[0.0], np.cumsum([rng.uniform(0.03, 0.1) for _ in range(n - 1)])])
+    origin = ORIGINS[k % 4]
+    time = origin + time
     dtv = steps_of(time)[:, None]
     hmin = float(dtv.min())
     phi = lat * D2R
@@ -505,14 +528,14 @@ def rest_case(seed, k, dt=0.1, n=12):
             ea = float(np.abs(imu.values[:, 3:] / sc - f_true).max())
             worst['gyro'] = max(worst['gyro'], eg)
             worst['accel'] = max(worst['accel'], ea)
-            if not (eg <= 1e-11):
+            if not (eg <= 1e-11 * NOISE(origin)):
                 fails.append(f"at rest, {form}/{st}: gyro differs from C^T rate_n by {eg:.3e} rad/s")
-            if not (ea <= ACC_FLOOR(hmin)):
+            if not (ea <= ACC_FLOOR(hmin) * NOISE(origin)):
                 fails.append(f"at rest, {form}/{st}: accel differs from -C^T gravity_n by {ea:.3e} m/s^2")
             if np.abs(trj[['lat', 'lon', 'alt']].values - [lat, lon, alt]).max() > 1e-9 or \
-                    np.abs(trj[['VN', 'VE', 'VD']].values).max() > 1e-6:
+                    np.abs(trj[['VN', 'VE', 'VD']].values).max() > 2e-5 * NOISE(origin):
                 fails.append(f"at rest, {form}/{st}: returned trajectory moves")
-    return fails, dict(lat=lat, lon=lon, alt=alt, rph=rph, worst=worst,
+    return fails, dict(lat=lat, lon=lon, alt=alt, rph=rph, worst=worst, t_first=origin,
                        steps_ms=[round(1e3 * hmin, 1), round(1e3 * float(dtv.max()), 1)])
 
 
@@ -550,10 +573,78 @@ def poly_case(seed, k):
     return fails, dict(dt=dt.ravel().tolist(), a=a.tolist(), b=b.tolist(), c=c.tolist(), d=d.tolist(), e=e.tolist())
 
 
+SINE_ACC_TOL = 0.05     # [m/s^2]; clean tree: see calibration in the docstring of sine_case
+
+
+def sine_case(seed, k):
+    """generate_sine_velocity_motion: the returned NED velocity is the documented
+        V(t) = V_mean + V_ampl * sin(2 pi t / period + phase_offset [deg])
+    and the accelerometer readings are the specific force of that motion (independent navigation equations, attitude
+    and position taken from the returned trajectory).  The function is called TWICE with the SAME argument objects
+    (rate, then increment); phase offsets (non-default) come as float64 ndarray / list / pandas Series; the arguments
+    must be unchanged afterwards.  Clean tree: velocity exact to 1e-12, accel within ~2e-3 m/s^2."""
+    import pandas as pd
+    from pyins import sim
+    rng = _case_rng(seed, 400000 + k)
+    dt = rng.choice([0.05, 0.1])
+    total = 20.0
+    lla0 = np.array([rng.choice([-1, 1]) * rng.uniform(0, 80), rng.uniform(-179, 179), rng.uniform(0, 10000)])
+    az = rng.uniform(0, 2 * math.pi)
+    sp = rng.uniform(50, 250)
+    vmean = np.array([sp * math.cos(az), sp * math.sin(az), rng.uniform(-5, 5)])
+    vamp = np.array([rng.uniform(0, 15), rng.uniform(0, 15), rng.uniform(0, 2)])
+    period = rng.uniform(20, 60)
+    ph = [rng.uniform(-180, 180) for _ in range(3)]
+    kind = ('float64 ndarray', 'list', 'Series')[k % 3]
+    phase = np.array(ph, dtype=float) if k % 3 == 0 else (list(ph) if k % 3 == 1 else pd.Series(ph, dtype=float))
+    saved = dict(lla0=lla0.copy(), vmean=vmean.copy(), vamp=vamp.copy(), phase=list(ph))
+    fails = []
+    summ = dict(dt=dt, lla0=lla0.tolist(), velocity_mean=vmean.tolist(), amplitude=vamp.tolist(), period=period,
+                phase_offset=ph, phase_type=kind)
+    for call, st in enumerate(('rate', 'increment')):
+        trj, imu = sim.generate_sine_velocity_motion(dt, total, lla0, vmean, vamp, period, phase, st)
+        if not (np.array_equal(lla0, saved['lla0']) and np.array_equal(vmean, saved['vmean'])
+                and np.array_equal(vamp, saved['vamp']) and list(np.asarray(phase, dtype=float)) == saved['phase']):
+            fails.append(f"call {call + 1} ({st}): generate_sine_velocity_motion modified its arguments "
+                         f"(phase offset passed as {kind} is now {list(np.asarray(phase, dtype=float))})")
+        t = np.asarray(trj.index, dtype=float)
+        arg = 2 * math.pi * t[:, None] / period + np.array(ph) * D2R
+        v = saved['vmean'] + saved['vamp'] * np.sin(arg)
+        vd = saved['vamp'] * np.cos(arg) * 2 * math.pi / period
+        dv = float(np.abs(trj[['VN', 'VE', 'VD']].values - v).max())
+        summ[f'velocity_{st}'] = dv
+        if dv > 1e-9:
+            fails.append(f"call {call + 1} ({st}): returned velocity is {dv:.3e} m/s off V_mean + V_ampl sin(2 pi t/period + phase)")
+        # specific force of the documented motion at the returned position / attitude
+        lla = trj[['lat', 'lon', 'alt']].values
+        rph = trj[['roll', 'pitch', 'heading']].values
+        fb = np.zeros((len(t), 3))
+        for i in range(len(t)):
+            phi = lla[i, 0] * D2R
+            s, c = math.sin(phi), math.cos(phi)
+            w = math.sqrt(1 - E2 * s * s)
+            rn = A_E * (1 - E2) / w ** 3 + lla[i, 2]
+            re = A_E / w + lla[i, 2]
+            Om = np.array([W_E * c, 0.0, -W_E * s])
+            rho = np.array([v[i, 1] / re, -v[i, 0] / rn, -v[i, 1] * s / (c * re)])
+            g = G_E * (1 + G_F * s * s) / w * (1 - 2 * lla[i, 2] / A_E)
+            fn = vd[i] + np.array(cross(2 * Om + rho, v[i])) - np.array([0.0, 0.0, g])
+            fb[i] = cnb_from_rph(*(rph[i] * D2R)).T @ fn
+        a = imu[['accel_x', 'accel_y', 'accel_z']].values
+        if st == 'rate':
+            ea = float(np.abs(a - fb)[3:-3].max())
+        else:
+            ea = float(np.abs(a[1:] / dt - 0.5 * (fb[1:] + fb[:-1]))[3:-3].max())
+        summ[f'accel_{st}'] = ea
+        if not (ea <= SINE_ACC_TOL + ACC_FLOOR(dt)):
+            fails.append(f"call {call + 1} ({st}): accel readings are {ea:.3e} m/s^2 off the specific force of the documented motion")
+    return fails, summ
+
+
 FAMILIES = ('gc', 'helix', 'tumble')
 
 
-def numeric(r, n_traj, n_rest, dts, seed=None, closed=True, legs=((0.1, 1),)):
+def numeric(r, n_traj, n_rest, dts, seed=None, closed=True, legs=((0.1, 1),), n_sine=6):
     seed = r.seed if seed is None else seed
     out = []
     dist = {}
@@ -585,6 +676,13 @@ def numeric(r, n_traj, n_rest, dts, seed=None, closed=True, legs=((0.1, 1),)):
             for f in fails[:2]:
                 out.append((f, dict(kind='leg', seed=seed, k=kk, dt=dt, what=f)))
     dist['leg'] = nleg
+    for k in range(n_sine):
+        fails, summ = sine_case(seed, k)
+        r.case(('sine', k), sample=dict(kind='sine', k=k, **summ))
+        for f in fails[:2]:
+            out.append((f, dict(kind='sine', seed=seed, k=k, what=f)))
+    dist['sine_velocity_motion'] = n_sine
+    dist['time_origins'] = list(ORIGINS)
     dist['non_uniform_grids'] = dict(trajectories=n_traj // 2, rest=n_rest // 2)
     r.coverage['distribution'] = dict(trajectories=dist, forms=list(FORMS), sensor_types=['rate', 'increment'],
                                       intervals=list(dts), total_time_s=TOTAL)
@@ -620,7 +718,7 @@ def check(r):
     if r.tier == 'quick':
         fails = numeric(r, n_traj=6, n_rest=20, dts=(0.1, 0.05), legs=((0.1, 1),))
     else:
-        fails = numeric(r, n_traj=120, n_rest=1000, dts=(0.1, 0.05, 0.025, 0.0125), legs=((0.1, 6), (0.05, 3)))
+        fails = numeric(r, n_traj=120, n_rest=1000, dts=(0.1, 0.05, 0.025, 0.0125), legs=((0.1, 6), (0.05, 3)), n_sine=60)
         for k in range(1000):
             f, rep = poly_case(r.seed, k)
             r.case(('poly', k))
@@ -664,6 +762,13 @@ def falsify(r):
             if len(found) >= 3:
                 break
     if len(found) < 3:
+        for k in range(12):
+            f, _ = sine_case(r.seed + 1, k)
+            for x in f[:1]:
+                found.append((x, dict(kind='sine', seed=r.seed + 1, k=k, what=x)))
+            if len(found) >= 3:
+                break
+    if len(found) < 3:
         for k in range(3):
             f, _ = leg_case(r.seed + 1, k, 0.1)
             for x in f[:1]:
@@ -687,6 +792,9 @@ def replay(obj):
     elif kind == 'poly':
         fails, summ = poly_case(rep['seed'], rep['k'])
         print("increment kernel input:", summ)
+    elif kind == 'sine':
+        fails, summ = sine_case(rep['seed'], rep['k'])
+        print("generate_sine_velocity_motion:", summ)
     elif kind == 'leg':
         fails, summ = leg_case(rep['seed'], rep['k'], rep.get('dt', 0.1))
         print("long leg:", summ)
